@@ -7,6 +7,7 @@ n = sys.argv[sys.argv.index('-n') + 1] if '-n' in sys.argv else '12'
 base = json.load(open('/root/.vp/BASELINE.json'))
 out = tempfile.mktemp(suffix='.xml', dir='/var/tmp')
 env = dict(os.environ); env.pop('EVALF_NUTILS_VERIF', None); env['PYTHONPATH'] = os.path.join(repo, 'src')
+for k in ('OMP_NUM_THREADS', 'OPENBLAS_NUM_THREADS', 'MKL_NUM_THREADS'): env.setdefault(k, '1')  # one BLAS thread per xdist worker
 cmd = ['/venv/bin/python', '-m', 'pytest', '-q', '-p', 'no:cacheprovider', '--timeout=900', '--continue-on-collection-errors', '--junitxml=' + out]
 if n != '0': cmd += ['-n', n]
 p = subprocess.run(cmd, cwd=repo, env=env, stdout=subprocess.PIPE, stderr=subprocess.STDOUT, text=True)
